@@ -83,6 +83,7 @@ def summarize(sim):
         "queues": {n: w.queue_obs() for n, w in sim.workers.items()},
         "nworkers": len(sim.workers),
         "testscollected": getattr(sim.ds._session, "testscollected", None),
+        "summary_report": getattr(sim.ds, "_summary_report", None),
         "exc": repr(getattr(sim, "exc", None))[:300] if getattr(sim, "exc", None) is not None else None,
         "exc_site": exc_site(getattr(sim, "exc", None)),
     }
